@@ -261,8 +261,11 @@ class Gen:
             n = r.choice(names)
             if env[n] in (INT, STR, LIST) and n not in self.protected:
                 op = r.choice(["+", "-", "*"]) if env[n] == INT else "+"
-                return [{"t": "opassign", "lhs": self.var(n), "op": op, "oploc": self.loc(),
-                         "rhs": self.expr(env, env[n])}]
+                # (strings and lists grow by a literal only: `v += v` in a loop doubles the value every time)
+                rhs = self.expr(env, INT) if env[n] == INT else \
+                    self.str_(r.choice(STRS)) if env[n] == STR else \
+                    self.list_([self.int_(r.randrange(0, 9)) for _ in range(r.randrange(0, 3))])
+                return [{"t": "opassign", "lhs": self.var(n), "op": op, "oploc": self.loc(), "rhs": rhs}]
         if c < 0.52:
             ty = r.choice([INT, BOOL, STR, LIST, OBJ])
             return [self.print_(self.expr(env, ty))]
